@@ -24,6 +24,7 @@ def run(rep: core.Report):
     _r12d(rep)
     _r12e(rep)
     _r12f(rep)
+    _r12g(rep)
     # R12a -------------------------------------------------------------
     fn = core.find_def(GV, "GroupVelocity._calculate_group_velocity_at_q")
     lam, fac = sp.Symbol("lam", positive=True), sp.Symbol("factor", positive=True)
@@ -193,6 +194,63 @@ def _attr_resolution(rep, files, rule):
                                  f"'{a.attr}' is neither a method, property, class attribute nor an instance attribute of {cls.name} (or its bases): AttributeError on this access path", line=a.lineno)
     if n < (10 if len(files) < 20 else 150):
         raise AnalysisError(f"{rule}: only {n} attribute uses on locally constructed repository objects found")
+
+
+def _r12g(rep):
+    """Wang NAC term of the derivative kernel: dnac[i,j,a,b] = factor (v.Z_i)_a (v.Z_j)_b / (v.eps.v) / sqrt(m_i m_j) with
+    v = reclat q (or the direction), and ddnac[n,i,j,a,b] is its derivative with respect to v_n (sympy differentiates
+    the closed form of dnac; the kernel's element must equal it)."""
+    from engine import cast, celem
+    from rules.c08 import eq0 as c08_eq0
+
+    DDMC = "c/derivative_dynmat.c"
+    rep.rule("R12g", "NAC part of the compiled derivative: dnac is the Wang term in Cartesian q, ddnac[n] its partial derivative along Cartesian axis n for all 27 x 9 elements; with a direction given the direction is used, otherwise q", 4)
+    tu = cast.load(DDMC, openmp=False, symbolize=("PI",))
+    i, j, n = sp.symbols("i j num_patom", integer=True)
+    fn_node = tu.functions.get("get_derivative_nac")
+    if fn_node is None:
+        raise AnalysisError("anchor vanished: get_derivative_nac")
+    line = tu.line(fn_node)
+    Z, eps, rl, massf = sp.Function("born"), sp.Function("dielectric"), sp.Function("reclat"), sp.Function("mass")
+    v = [sp.Symbol(f"v{a}") for a in range(3)]
+    top = cast.kids(cast.body(fn_node))
+    loops = [x for x in top if x.get("kind") == "ForStmt"]
+    if len(loops) != 2:
+        raise AnalysisError("R12g: get_derivative_nac is no longer 'compute q_cart, then fill dnac/ddnac'")
+    first = loops[0]
+    rest = top[top.index(first) + 1:]
+    # (1) which vector is converted to Cartesian coordinates
+    for arm, exa, qname in (("q-point", celem.ElemExec(tu, where=DDMC, consts={"PI": sp.pi}, null_pointers={"q_direction"}), "q"), ("direction", celem.ElemExec(tu, where=DDMC, consts={"PI": sp.pi}, nonnull_pointers={"q_direction"}), "q_direction")):
+        st0 = celem.State(exa, "get_derivative_nac", {}, {}, 0)
+        st0.local_arrays.add("q_cart")
+        st0.block([first])
+        ok_v = all(sp.expand(st0.cell("q_cart", a) - sum(rl(3 * a + b_) * sp.Function(qname)(b_) for b_ in range(3))) == 0 for a in range(3))
+        rep.instance("R12g", DDMC, "get_derivative_nac", f"{arm}: v = reclat . {qname}", ok_v, f"{arm}: the Cartesian vector entering the NAC derivative is not reclat . {qname}", line=line)
+    # (2) the fill nest in terms of v
+    exv = celem.ElemExec(tu, where=DDMC, consts={"PI": sp.pi}, null_pointers={"q_direction"})
+    st = celem.State(exv, "get_derivative_nac", {"num_patom": n, "factor": sp.Symbol("factor")}, {}, 0)
+    st.local_arrays.add("q_cart")
+    st.cells["q_cart"] = [((sp.Integer(a),), (), v[a]) for a in range(3)]
+    st.block(rest)
+    den = sum(v[a] * eps(3 * a + b_) * v[b_] for a in range(3) for b_ in range(3))
+    bad_d, bad_dd = [], []
+    for a in range(3):
+        for b_ in range(3):
+            A = sum(v[c] * Z(sp.expand(i * 9 + c * 3 + a)) for c in range(3))
+            B = sum(v[c] * Z(sp.expand(j * 9 + c * 3 + b_)) for c in range(3))
+            D0 = sp.Symbol("factor") * A * B / den / sp.sqrt(massf(i) * massf(j))
+            got = st.cell("dnac", sp.expand(i * 9 * n + j * 9 + a * 3 + b_))
+            if not c08_eq0(got - D0):
+                bad_d.append((a, b_))
+            for d in range(3):
+                gotd = st.cell("ddnac", sp.expand(d * n * n * 9 + i * 9 * n + j * 9 + a * 3 + b_))
+                if not c08_eq0(gotd - sp.diff(D0, v[d])):
+                    bad_dd.append((d, a, b_))
+    rep.instance("R12g", DDMC, "get_derivative_nac", "dnac[i,j,a,b] = factor (v.Z_i)_a (v.Z_j)_b / (v.eps.v) / sqrt(m_i m_j) for all 9 (a, b)", not bad_d,
+                 f"the Wang term entering the derivative kernel is wrong for (a, b) in {bad_d[:4]}", line=line)
+    rep.instance("R12g", DDMC, "get_derivative_nac", "ddnac[n,i,j,a,b] = d dnac / d v_n for all 27 (n, a, b)", not bad_dd,
+                 f"ddnac is not the derivative of the Wang term along Cartesian axis n for (n, a, b) in {bad_dd[:4]}: with NAC the analytic group velocity is not the gradient of the frequencies", line=line)
+    rep.assume("R12g: the dielectric tensor is symmetric is NOT needed here (the kernel differentiates v.eps.v exactly, get_dC = (eps + eps^T) v)")
 
 
 def _r12f(rep):
@@ -369,4 +427,6 @@ def selftest():
     b("derivative kernel: lattice row and column swapped", DDMC, "                        2 * PI * lattice[m * 3 + n] * svecs[svecs_adrs + l][n];", "                        2 * PI * lattice[n * 3 + m] * svecs[svecs_adrs + l][n];", "R12f", "get_derivative_dynmat_at_q")
     b("derivative kernel: image selection on i", DDMC, "        if (s2p_map[k] != p2s_map[j]) {\n            continue;\n        }\n\n        real_phase = 0;", "        if (s2p_map[k] != p2s_map[i]) {\n            continue;\n        }\n\n        real_phase = 0;", "R12f", "get_derivative_dynmat_at_q")
     n("derivative kernel: factors reordered", DDMC, "                    ddm_real[n][l][m] += fc_elem * real_coef[n];", "                    ddm_real[n][l][m] += real_coef[n] * fc_elem;")
+    b("NAC derivative: quotient rule sign", DDMC, "                            (da * b + db * a - a * b * dc / c) /", "                            (da * b + db * a + a * b * dc / c) /", "R12g", "ddnac")
+    b("NAC derivative: mass factor dropped", DDMC, "                                a * b / (c * mass_sqrt) * factor;", "                                a * b / c * factor;", "R12g", "dnac")
     return V
